@@ -1,0 +1,14 @@
+//go:build verif
+
+// Contracts for package length (read by /verif/gocv; comment-only effect with the verif tag off).
+// C19: the length filter never panics and only ever drops tokens: what it returns are tokens of its
+// input, in order of arrival, whose rune count is within the configured bounds.
+
+package length
+
+//@ func LengthFilter.Filter
+//@   props C19
+//@   mode int
+//@   requires f != nil && forall(k, 0, len(input), input[k] != nil)
+//@   ensures len(result) <= len(input) && fresh(result) && forall(j, 0, len(result), result[j] != nil && implies(f.min > 0, utf8.RuneCount(result[j].Term) >= f.min) && implies(f.max > 0, utf8.RuneCount(result[j].Term) <= f.max))
+//@   loop 0: invariant len(rv) <= iter && fresh(rv) && cap(rv) == len(input) && forall(j, 0, len(rv), rv[j] != nil && implies(f.min > 0, utf8.RuneCount(rv[j].Term) >= f.min) && implies(f.max > 0, utf8.RuneCount(rv[j].Term) <= f.max))
